@@ -156,7 +156,12 @@ func (e *Exec) cMsg(m Msg) string {
 	case "create_tenant":
 		return fmt.Sprintf("MCreateTenant %s %s %s", e.acctZ(m.Sender), cStr(m.Denom), cU(m.Period))
 	case "create_tenant_mc":
-		return fmt.Sprintf("MCreateTenantMC %s %s %s", e.acctZ(m.Sender), cStr(m.Denom), cU(m.Period))
+		// the class of a foreign token contract comes from its address alone (see reservedAddress)
+		cls := 4
+		if reservedAddress(m.Contract) {
+			cls = 3
+		}
+		return fmt.Sprintf("MCreateTenantMC %s %s %s %s %d", e.acctZ(m.Sender), cStr(m.Denom), cU(m.Period), cStr(m.Contract), cls)
 	case "add_admin":
 		return fmt.Sprintf("MAddAdmin %s %s %s", e.acctZ(m.Sender), cU(m.Tid), e.acctZ(m.Admin))
 	case "remove_admin":
@@ -311,7 +316,15 @@ func (e *Exec) initCoq() string {
 		for _, a := range t.Admins {
 			ad = append(ad, e.acctZ(a))
 		}
-		ts = append(ts, fmt.Sprintf("mkTenant %d %s %s %s %d", t.Id, cList(ad), cStr(t.Denom), cU(t.Period), methodCode(t.Method)))
+		mc := methodCode(t.Method)
+		if mc == 1 {
+			// imported mintable-contract tenants never own a contract the module deployed
+			mc = 4
+			if reservedAddress(t.Contract) {
+				mc = 3
+			}
+		}
+		ts = append(ts, fmt.Sprintf("mkTenant %d %s %s %s %d", t.Id, cList(ad), cStr(t.Denom), cU(t.Period), mc))
 	}
 	for _, u := range g.Utxrs {
 		var rs []string
